@@ -92,7 +92,7 @@ Theorem nselect_rows m ov ow cv cw r : nselect (true, m) (NW ov (Some ow)) (NW c
     nth_error (rows rv) j = (if b then nth_error (rows ov) j else nth_error (rows cv) j) /\
     nth_error (rows rw) j = (if b then nth_error (rows ow) j else nth_error (rows cw) j).
 Proof.
-  unfold nselect, nselect_with. cbn [orb oor].
+  unfold nselect, nselect_with. cbn -[twhere].
   destruct (twhere (true, m) ov cv) as [rv|] eqn:Ev; [|discriminate].
   destruct (twhere (true, m) ow cw) as [rw|] eqn:Ew; [|discriminate].
   intros H. injection H as <-. exists rv, rw. split; [reflexivity|].
@@ -249,14 +249,29 @@ Proof.
   exact (nsel_t_nsel _ _ _ _ _ Eo Ec Hf).
 Qed.
 
+Ltac sub_torch :=
+  repeat (match goal with
+          | |- context [twhere ?a ?b ?c] =>
+              let E := fresh "E" in destruct (twhere a b c) eqn:E; [rewrite (twhere_sub_torch _ _ _ _ E)|]
+          end; cbn -[twhere twhere_torch ones_like]); try discriminate; auto.
+
 Theorem nselect_sub_torch mk old cur r : nselect mk old cur = Some r -> nselect_torch mk old cur = Some r.
 Proof.
   unfold nselect, nselect_torch, nselect_with.
-  destruct old as [o|ov [ow|]|], cur as [c|cv [cw|]|]; cbn -[twhere twhere_torch]; try discriminate;
-    repeat (match goal with
-            | |- context [twhere ?a ?b ?c] =>
-                let E := fresh "E" in destruct (twhere a b c) eqn:E; [rewrite (twhere_sub_torch _ _ _ _ E)|]
-            end; cbn -[twhere twhere_torch]); try discriminate; auto.
+  destruct old as [o|ov [ow|]|], cur as [c|cv [cw|]|]; cbn -[twhere twhere_torch ones_like]; try discriminate; sub_torch.
+Qed.
+
+Theorem nselect_old_sub_torch mk old cur r : nselect_old mk old cur = Some r -> nselect_torch_old mk old cur = Some r.
+Proof.
+  unfold nselect_old, nselect_torch_old, nselect_with.
+  destruct old as [o|ov [ow|]|], cur as [c|cv [cw|]|]; cbn -[twhere twhere_torch]; try discriminate; sub_torch.
+Qed.
+
+(** the repair changes nothing for two sides of the same kind *)
+Theorem nselect_same_kind_unchanged mk old cur : nselect_old mk old cur <> None -> nselect mk old cur = nselect_old mk old cur.
+Proof.
+  unfold nselect, nselect_old, nselect_with.
+  destruct old as [o|ov [ow|]|], cur as [c|cv [cw|]|]; cbn -[twhere ones_like]; intros H; try reflexivity; now elim H.
 Qed.
 
 (** the result of the contract-restricted selection has the shape of the two sides *)
@@ -346,7 +361,11 @@ Example nd_select_examples :
     = Some (NW (mat [[10;20];[3;4]]) (Some (mat [[2;0];[0;5]]))) /\
   nselect_wrong_side (true, [false; true]) (NW (mat [[1;2];[3;4]]) (Some (mat [[2;0];[0;5]]))) (NW (mat [[10;20];[30;40]]) (Some (mat [[0;3];[1;1]])))
     = Some (NW (mat [[10;2];[30;4]]) (Some (mat [[0;0];[1;5]]))) /\
-  (* a value weighted on ONE side only: torch gives the rows of the un-weighted side the OTHER side's weight; outside the contract *)
-  nselect_torch (true, [true; false]) (NW (vec [5;7]) None) (NW (vec [1;2]) (Some (vec [0;1]))) = Some (NW (vec [5;2]) (Some (vec [0;1]))) /\
-  nselect (true, [true; false]) (NW (vec [5;7]) None) (NW (vec [1;2]) (Some (vec [0;1]))) = None.
+  (* a value weighted on ONE side only: the rows of the side without weight are fully weighted (1); before the repair they took the OTHER
+     side's weight, and the contract had to exclude such pairs *)
+  nselect_torch (true, [true; false]) (NW (vec [5;7]) None) (NW (vec [1;2]) (Some (vec [0;1]))) = Some (NW (vec [5;2]) (Some (vec [1;1]))) /\
+  nselect (true, [true; false]) (NW (vec [5;7]) None) (NW (vec [1;2]) (Some (vec [0;1]))) = Some (NW (vec [5;2]) (Some (vec [1;1]))) /\
+  nselect (true, [false; true]) (NP (vec [5;7])) (NW (vec [1;2]) (Some (vec [0;3]))) = Some (NW (vec [1;7]) (Some (vec [0;1]))) /\
+  nselect_torch_old (true, [true; false]) (NW (vec [5;7]) None) (NW (vec [1;2]) (Some (vec [0;1]))) = Some (NW (vec [5;2]) (Some (vec [0;1]))) /\
+  nselect_old (true, [true; false]) (NW (vec [5;7]) None) (NW (vec [1;2]) (Some (vec [0;1]))) = None.
 Proof. vm_compute. repeat split. Qed.
